@@ -937,7 +937,13 @@ fn vtx_file(ym: bool, stereo: u8, pf: u8, reg_major: &[u8]) -> Vec<u8> {
     f.push(pf);
     f.extend_from_slice(&1999u16.to_le_bytes());
     f.extend_from_slice(&(reg_major.len() as u32).to_le_bytes());
-    f.extend_from_slice(b"t\0a\0f\0k\0c\0");
+    // five NUL-terminated strings (title, author, from, tracker, comment); their total length varies with the data —
+    // a few bytes, just below / at / just above 256 bytes, several hundred — the compressed data starts right after
+    let k = reg_major.len() + reg_major.first().copied().unwrap_or(0) as usize;
+    let comment_len = [1usize, 7, 100, 246, 247, 248, 249, 300, 600, 1][k % 10];
+    f.extend_from_slice(b"t\0a\0f\0k\0");
+    f.extend((0..comment_len).map(|i| b'a' + (i % 26) as u8));
+    f.push(0);
     f.extend_from_slice(&lh5_literal(reg_major));
     f
 }
@@ -950,9 +956,9 @@ fn check_transpose(model: &mut Model, reg_major: &[u8], rep: Option<&mut Report>
         Ok(Err(e)) => {
             return Some(Disagreement {
                 at: None,
-                kind: Kind::ModelMismatch,
+                kind: Kind::SpecViolated,
                 key: "load.error",
-                what: "Vtx::load rejected a well-formed file built by the harness".into(),
+                what: "Vtx::load rejected a well-formed file built by the harness (header strings of any length, literal-only LH5 data): the register log is lost".into(),
                 implementation: format!("{}", e),
                 expected: "Ok".into(),
             })
